@@ -156,6 +156,9 @@ func (fx *FuncExec) run() {
 		}
 		fx.entry = st.clone()
 	}
+	if c != nil && c.HasModifies {
+		fx.modSet = fx.modTerms(c, func() *SpecEnv { return fx.specEnv(fx.entry, fx.entry, fx.bodyPos(), "modifies") })
+	}
 	// vacuity check: the entry assumptions must be satisfiable
 	vo := fx.oblige(st, "vacuity", "entry-satisfiable", "true", "requires are satisfiable", fi.Body.Pos())
 	vo.Expect = "sat"
@@ -302,6 +305,9 @@ func (fx *FuncExec) compsOfType(d string, pkg *types.Package) (out []string) {
 		for _, f := range si.Fields {
 			cs = append(cs, si.Comp[f])
 		}
+		for _, f := range si.GhostF {
+			cs = append(cs, si.Comp[f])
+		}
 		return cs
 	}
 	return nil
@@ -312,7 +318,19 @@ func (fx *FuncExec) assignsComps(c *Contract, pkg *types.Package) map[string]boo
 	for _, d := range c.Assigns {
 		for _, comp := range fx.compsOf(d, pkg) {
 			m[comp] = true
+			// objects of the component's key sort may be allocated by the callee
+			ks, _ := arraySorts(fx.reg.compSort[comp])
+			if al, ok := fx.reg.allocOf[ks]; ok {
+				m[al] = true
+			}
 		}
+		// a struct type without fields still has an allocation component
+		func() {
+			defer func() { recover() }()
+			if srt, _ := fx.typeFromString(d, pkg); fx.reg.allocOf[srt] != "" {
+				m[fx.reg.allocOf[srt]] = true
+			}
+		}()
 	}
 	return m
 }
@@ -322,9 +340,6 @@ func (fx *FuncExec) checkAssigns(final *State) {
 	allowed := fx.assignsComps(fx.contract, fx.pkg.Types)
 	var bad []string
 	for _, w := range sortedKeys(fx.writes) {
-		if strings.HasPrefix(w, "AL_") {
-			continue
-		}
 		if !allowed[w] {
 			bad = append(bad, w)
 		}
